@@ -1,12 +1,299 @@
-import LLTD.Model.Event
-import LLTD.Spec.Table
-import LLTD.Spec.Event
-import LLTD.Spec.Tick
-import LLTD.Lemmas.Table
+/-
+  C16 — The session table stays consistent under any sequence of operations.
+  Invariant + refinement to the dictionary specification (Spec/Table.lean), by induction over operations.
+-/
+import LLTD.Lemmas.TableInv
 
 namespace LLTD.C16
 open LLTD LLTD.Spec
 
-theorem table_size : X.maxEntries = 16 := by decide
+structure TInv (t : Table) : Prop where
+  len   : t.entries.length = 16
+  nodup : noDupKeys (liveS t.entries) = true
+  count : t.count = (liveS t.entries).length
+  allc  : t.allComplete = (liveS t.entries).all (·.complete)
+
+theorem view_live (t : Table) : (viewOf t).live = liveS t.entries := rfl
+
+theorem live_le (t : Table) (h : TInv t) : (liveS t.entries).length ≤ 16 := by
+  have := liveS_length_le t.entries; rw [h.len] at this; exact this
+
+/-- the invariant makes the observable view consistent: one session per key, at most 16, count and both flags truthful -/
+theorem viewOk_of_inv (t : Table) (h : TInv t) : viewOk (viewOf t) = true := by
+  have hl := live_le t h
+  unfold viewOk
+  have e1 : (viewOf t).count = t.count := rfl
+  have e2 : (viewOf t).allc = t.allComplete := rfl
+  have e3 : (viewOf t).empty = t.isEmpty := rfl
+  rw [view_live, e1, e2, e3, h.nodup, decide_eq_true hl, decide_eq_true h.count, ← h.allc]
+  simp only [Bool.true_and, Bool.and_true, beq_self_eq_true]
+  unfold Table.isEmpty
+  rw [h.count]
+  cases liveS t.entries with
+  | nil => rfl
+  | cons a b => rfl
+
+theorem liveS_create : liveS Table.create.entries = [] := by
+  have := create_live
+  unfold Table.live at this
+  unfold liveS
+  rw [this]; rfl
+
+theorem create_inv : TInv Table.create := by
+  refine ⟨?_, ?_, ?_, ?_⟩
+  · simp [Table.create]
+  · rw [liveS_create]; rfl
+  · rw [liveS_create]; rfl
+  · rw [liveS_create]; rfl
+
+theorem updateStatus_inv (t : Table) (hl : t.entries.length = 16) (hn : noDupKeys (liveS t.entries) = true)
+    (hc : t.count = (liveS t.entries).length) : TInv t.updateStatus :=
+  ⟨hl, hn, hc, all_complete_iff t.entries⟩
+
+/-! ### add -/
+theorem add_inv (t : Table) (mac : Mac) (gen seq now : Nat) (h : TInv t) : TInv (t.add mac gen seq now).1 := by
+  unfold Table.add
+  by_cases hk : t.entries.any (fun e => e.matches mac gen) = true
+  · rw [if_pos hk]
+    have hlive := live_updateFirst_keep t.entries mac gen (fun e => { e with seq := seq, last := now })
+      (fun s => { s with seq := seq, last := now }) (fun e => ⟨rfl, rfl, rfl⟩) h.nodup
+    refine ⟨by simp only [updateFirst_length]; exact h.len, ?_, ?_, ?_⟩
+    · simp only []; rw [hlive]
+      exact noDupKeys_map_keep _ _ (fun s => by split <;> rfl) h.nodup
+    · simp only []; rw [hlive, List.length_map]; exact h.count
+    · simp only []; rw [hlive, h.allc, List.all_map]
+      congr 1; funext s; simp only [Function.comp]; split <;> rfl
+  · rw [if_neg hk]
+    by_cases hf : t.entries.any (fun e => !e.valid) = true
+    · rw [if_pos hf]
+      obtain ⟨a, b, h1, h2⟩ := live_updateFirst_insert t.entries (newEntry mac gen seq now) rfl hf
+      have hnk : (a ++ b).any (fun s => s.key == (sessOf (newEntry mac gen seq now)).key) = false := by
+        rw [← h1]
+        show (liveS t.entries).any (fun s => s.key == (mac, gen)) = false
+        rw [← any_matches_iff]
+        simpa using hk
+      have hlt : (liveS t.entries).length < 16 := by
+        have := (any_free_iff t.entries).mp hf; rw [h.len] at this; exact this
+      refine ⟨by simp only [updateFirst_length]; exact h.len, ?_, ?_, ?_⟩
+      · simp only []; rw [h2]; exact noDupKeys_insert a b _ (by rw [← h1]; exact h.nodup) hnk
+      · simp only []; rw [h2]
+        have : (a ++ sessOf (newEntry mac gen seq now) :: b).length = (liveS t.entries).length + 1 := by
+          rw [h1]; simp; omega
+        rw [this, h.count]
+        apply Nat.mod_eq_of_lt; unfold u8; omega
+      · simp only []; rw [h2]
+        simp [List.all_append, sessOf, newEntry]
+    · rw [if_neg hf]; exact h
+
+theorem add_spec (t : Table) (mac : Mac) (gen seq now : Nat) (h : TInv t) :
+    holdsC16 (viewOf t) (viewOf (t.add mac gen seq now).1) (.add mac gen seq) (t.add mac gen seq now).2.isSome now = true := by
+  have hok := viewOk_of_inv _ (add_inv t mac gen seq now h)
+  have hany := any_matches_iff t.entries mac gen
+  unfold holdsC16
+  rw [hok, Bool.true_and]
+  simp only [view_live]
+  by_cases hk : t.entries.any (fun e => e.matches mac gen) = true
+  · have hk' : (liveS t.entries).any (fun s => s.key == (mac, gen)) = true := by rw [← hany]; exact hk
+    simp only [hk', if_true]
+    have hlive := live_updateFirst_keep t.entries mac gen (fun e => { e with seq := seq, last := now })
+      (fun s => { s with seq := seq, last := now }) (fun e => ⟨rfl, rfl, rfl⟩) h.nodup
+    have hadd : t.add mac gen seq now =
+        ({ t with entries := updateFirst (fun e => e.matches mac gen) (fun e => { e with seq := seq, last := now }) t.entries }, t.find mac gen) := by
+      unfold Table.add; rw [if_pos hk]
+    rw [hadd]
+    simp only []
+    rw [hlive, sameSet_refl, Bool.and_true]
+    unfold Table.find
+    have : t.entries.findIdx (fun e => e.matches mac gen) < t.entries.length := by
+      apply List.findIdx_lt_length_of_exists
+      simpa [List.any_eq_true] using hk
+    simp [this]
+  · have hk' : (liveS t.entries).any (fun s => s.key == (mac, gen)) = false := by
+      rw [← hany]; simpa using hk
+    simp only [hk', Bool.false_eq_true, if_false]
+    by_cases hf : t.entries.any (fun e => !e.valid) = true
+    · have hlt : ¬ (liveS t.entries).length ≥ 16 := by
+        have := (any_free_iff t.entries).mp hf; rw [h.len] at this; omega
+      simp only [hlt, if_false]
+      have hadd : t.add mac gen seq now =
+          ({ entries := updateFirst (fun e => !e.valid) (fun _ => newEntry mac gen seq now) t.entries,
+             count := (t.count + 1) % u8, allComplete := false }, t.firstFree) := by
+        unfold Table.add; rw [if_neg hk, if_pos hf]
+      rw [hadd]
+      simp only []
+      obtain ⟨a, b, h1, h2⟩ := live_updateFirst_insert t.entries (newEntry mac gen seq now) rfl hf
+      rw [h2, h1]
+      have hs : sameSet (a ++ sessOf (newEntry mac gen seq now) :: b)
+          ({ mac := mac, gen := gen, seq := seq, complete := false, last := now } :: (a ++ b)) = true :=
+        sameSet_insert a b (sessOf (newEntry mac gen seq now))
+      rw [hs, Bool.and_true]
+      unfold Table.firstFree
+      have : t.entries.findIdx (fun e => !e.valid) < t.entries.length := by
+        apply List.findIdx_lt_length_of_exists
+        simpa [List.any_eq_true] using hf
+      simp [this]
+    · have hge : (liveS t.entries).length ≥ 16 := by
+        have hnf : ¬ (liveS t.entries).length < t.entries.length := fun hlt => hf ((any_free_iff t.entries).mpr hlt)
+        rw [h.len] at hnf; omega
+      simp only [hge, if_true]
+      have hadd : t.add mac gen seq now = (t, none) := by
+        unfold Table.add; rw [if_neg hk, if_neg hf]
+      rw [hadd]
+      simp [sameSet_refl]
+
+/-! ### find / remove / clear / complete / expiry -/
+theorem find_spec (t : Table) (mac : Mac) (gen : Nat) (h : TInv t) :
+    holdsC16 (viewOf t) (viewOf t) (.find mac gen) (t.find mac gen).isSome 0 = true := by
+  have hany := any_matches_iff t.entries mac gen
+  unfold holdsC16
+  rw [viewOk_of_inv t h, Bool.true_and]
+  simp only [view_live, sameSet_refl, Bool.and_true]
+  unfold Table.find
+  by_cases hk : t.entries.any (fun e => e.matches mac gen) = true
+  · have hk' : (liveS t.entries).any (fun s => s.key == (mac, gen)) = true := by rw [← hany]; exact hk
+    have : t.entries.findIdx (fun e => e.matches mac gen) < t.entries.length := by
+      apply List.findIdx_lt_length_of_exists
+      simpa [List.any_eq_true] using hk
+    simp [this, hk']
+  · have hk' : (liveS t.entries).any (fun s => s.key == (mac, gen)) = false := by
+      rw [← hany]; simpa using hk
+    have : ¬ t.entries.findIdx (fun e => e.matches mac gen) < t.entries.length := by
+      intro hlt
+      have := List.findIdx_getElem (w := hlt)
+      exact hk (List.any_eq_true.mpr ⟨_, List.getElem_mem hlt, this⟩)
+    simp [this, hk']
+
+theorem remove_inv_spec (t : Table) (mac : Mac) (gen now : Nat) (h : TInv t) :
+    TInv (t.remove mac gen) ∧ holdsC16 (viewOf t) (viewOf (t.remove mac gen)) (.remove mac gen) false now = true := by
+  have hlive : liveS (if t.entries.any (fun e => e.matches mac gen) = true then
+        ({ t with entries := updateFirst (fun e => e.matches mac gen) (fun e => { e with valid := false }) t.entries,
+                  count := if t.count > 0 then t.count - 1 else t.count } : Table) else t).entries =
+      (liveS t.entries).filter (fun s => s.key != (mac, gen)) := by
+    split
+    · exact live_updateFirst_remove t.entries mac gen h.nodup
+    · next hk =>
+      simp only [Bool.not_eq_true] at hk
+      rw [any_matches_iff] at hk
+      exact (filter_key_absent _ _ hk).symm
+  have hinv : TInv (t.remove mac gen) := by
+    unfold Table.remove
+    apply updateStatus_inv
+    · split
+      · simp only [updateFirst_length]; exact h.len
+      · exact h.len
+    · rw [hlive]; exact noDupKeys_filter _ _ h.nodup
+    · rw [hlive]
+      split
+      · next hk =>
+        have hk' := hk; rw [any_matches_iff] at hk'
+        have := filter_key_length _ _ h.nodup hk'
+        simp only []
+        rw [h.count]; split <;> omega
+      · next hk =>
+        simp only [Bool.not_eq_true] at hk
+        rw [any_matches_iff] at hk
+        rw [filter_key_absent _ _ hk]; exact h.count
+  refine ⟨hinv, ?_⟩
+  unfold holdsC16
+  rw [viewOk_of_inv _ hinv, Bool.true_and]
+  simp only [view_live]
+  have : liveS (t.remove mac gen).entries = (liveS t.entries).filter (fun s => s.key != (mac, gen)) := by
+    unfold Table.remove Table.updateStatus; exact hlive
+  rw [this]; exact sameSet_refl _
+
+theorem clear_inv_spec (t : Table) (now : Nat) :
+    TInv t.clear ∧ holdsC16 (viewOf t) (viewOf t.clear) .clear false now = true := by
+  refine ⟨create_inv, ?_⟩
+  unfold holdsC16
+  rw [show viewOf t.clear = viewOf Table.create from rfl, viewOk_of_inv _ create_inv, Bool.true_and]
+  simp only [view_live]
+  rw [liveS_create]; rfl
+
+theorem complete_inv_spec (t : Table) (mac : Mac) (gen now : Nat) (h : TInv t) :
+    TInv (t.markComplete mac gen) ∧ holdsC16 (viewOf t) (viewOf (t.markComplete mac gen)) (.complete mac gen) false now = true := by
+  have hlive := live_updateFirst_keep t.entries mac gen (fun e => { e with complete := true })
+      (fun s => { s with complete := true }) (fun e => ⟨rfl, rfl, rfl⟩) h.nodup
+  have hinv : TInv (t.markComplete mac gen) := by
+    unfold Table.markComplete
+    apply updateStatus_inv
+    · simp only [updateFirst_length]; exact h.len
+    · simp only []; rw [hlive]; exact noDupKeys_map_keep _ _ (fun s => by split <;> rfl) h.nodup
+    · simp only []; rw [hlive, List.length_map]; exact h.count
+  refine ⟨hinv, ?_⟩
+  unfold holdsC16
+  rw [viewOk_of_inv _ hinv, Bool.true_and]
+  simp only [view_live]
+  have : liveS (t.markComplete mac gen).entries = (liveS t.entries).map (fun s => if s.key == (mac, gen) then { s with complete := true } else s) := by
+    unfold Table.markComplete Table.updateStatus; exact hlive
+  rw [this]; exact sameSet_refl _
+
+/-- a session idle for more than 60 s is removed by the tick's sweep while fresher ones survive -/
+theorem expire_inv_spec (t : Table) (now : Nat) (h : TInv t) :
+    TInv (t.expire now) ∧ holdsC16 (viewOf t) (viewOf (t.expire now)) .expire false now = true := by
+  obtain ⟨h1, h2, h3⟩ := expireLoop_spec now t.entries t.count
+  have hfl := List.length_filter_le (fresh now) (liveS t.entries)
+  have hinv : TInv (t.expire now) := by
+    unfold Table.expire
+    apply updateStatus_inv
+    · simp only []; rw [h2]; exact h.len
+    · simp only []; rw [h1]; exact noDupKeys_filter _ _ h.nodup
+    · simp only []; rw [h1, h3, h.count]; omega
+  refine ⟨hinv, ?_⟩
+  unfold holdsC16
+  rw [viewOk_of_inv _ hinv, Bool.true_and]
+  simp only [view_live]
+  have : liveS (t.expire now).entries = (liveS t.entries).filter (fresh now) := by
+    unfold Table.expire Table.updateStatus; exact h1
+  rw [this]; exact sameSet_refl _
+
+/-! ### every reachable table -/
+inductive Op where
+  | add (mac : Mac) (gen seq : Nat) | find (mac : Mac) (gen : Nat) | remove (mac : Mac) (gen : Nat)
+  | clear | complete (mac : Mac) (gen : Nat) | update | expire | advance (s : Nat)
+
+/-- (table, clock in seconds) -/
+def stepOp : Table × Nat → Op → Table × Nat
+  | (t, now), .add m g q => ((t.add m g q now).1, now)
+  | (t, now), .find _ _ => (t, now)
+  | (t, now), .remove m g => (t.remove m g, now)
+  | (t, now), .clear => (t.clear, now)
+  | (t, now), .complete m g => (t.markComplete m g, now)
+  | (t, now), .update => (t.updateStatus, now)
+  | (t, now), .expire => (t.expire now, now)
+  | (t, now), .advance s => (t, now + s)
+
+/-- under ANY sequence of add / find / remove / clear / completion / status update / expiry tick / clock advance
+    the table stays consistent (hence, by `viewOk_of_inv`, at most one session per key, at most 16, truthful
+    count and flags) -/
+theorem reach (ops : List Op) (now0 : Nat) : TInv (ops.foldl stepOp (Table.create, now0)).1 := by
+  suffices ∀ (s : Table × Nat), TInv s.1 → TInv (ops.foldl stepOp s).1 from this _ create_inv
+  induction ops with
+  | nil => intro s h; exact h
+  | cons op ops ih =>
+    intro s h
+    obtain ⟨t, now⟩ := s
+    simp only [List.foldl_cons]
+    apply ih
+    cases op with
+    | add m g q => exact add_inv t m g q now h
+    | find m g => exact h
+    | remove m g => exact (remove_inv_spec t m g now h).1
+    | clear => exact create_inv
+    | complete m g => exact (complete_inv_spec t m g now h).1
+    | update => exact updateStatus_inv t h.len h.nodup h.count
+    | expire => exact (expire_inv_spec t now h).1
+    | advance s => exact h
+
+/-- adding to a full table fails without disturbing existing sessions -/
+theorem add_full (t : Table) (mac : Mac) (gen seq now : Nat) (h : TInv t) (hfull : (liveS t.entries).length = 16)
+    (hnew : t.entries.any (fun e => e.matches mac gen) = false) : t.add mac gen seq now = (t, none) := by
+  unfold Table.add
+  have hf : ¬ t.entries.any (fun e => !e.valid) = true := by
+    intro hf; have := (any_free_iff t.entries).mp hf; rw [h.len] at this; omega
+  simp [hnew, hf]
+
+/-- non-vacuity: a concrete reachable table with two sessions of one mapper under different generations -/
+example : (viewOf ([Op.add [2,0,0,0,0,1] 1 5, Op.add [2,0,0,0,0,1] 2 5, Op.complete [2,0,0,0,0,1] 1].foldl stepOp (Table.create, 7)).1).count = 2 := by
+  decide
 
 end LLTD.C16
